@@ -1380,11 +1380,20 @@ pub fn keyof_expectation(env: &Env, x: &D) -> Option<Vec<String>> {
 /// (intersection of the property types); a union of such objects (union of the property types, plus undefined where the
 /// property is optional)
 pub fn indexed_expectation(env: &Env, x: &D, y: &D) -> Option<D> {
+    let r = Ref::new(env, Mode::Open);
+    // a tuple picked by a literal index: a fixed position, or (behind them) the rest element
+    if let (D::NumLit(n), D::Tuple(prefix, rest)) = (y, r.head(x)) {
+        let i: usize = n.parse().ok()?;
+        return match (prefix.get(i), rest) {
+            (Some(t), _) => Some(t.clone()),
+            (None, Some(rest)) => Some((**rest).clone()),
+            (None, None) => None,
+        };
+    }
     let k = match y {
         D::StrLit(k) => k,
         _ => return None,
     };
-    let r = Ref::new(env, Mode::Open);
     let prop_of = |d: &D| -> Option<(D, bool)> {
         match r.head(d) {
             D::Object { props, index: None } => props.iter().find(|p| p.key == *k).map(|p| (p.ty.clone(), p.optional)),
@@ -1554,6 +1563,21 @@ impl Check for C07 {
             x = if as_union { D::Union(members) } else { D::Inter(members) };
             indexed_key = Some(k);
         }
+        // indexed access into a tuple with a rest element: every fixed position, the first rest position and the next
+        let mut indexed_tuple: Option<usize> = None;
+        if op == "indexed" && indexed_key.is_none() && s.chance(1, 2) {
+            let leaf = |s: &mut Src| match s.below(5) {
+                0 => D::Str,
+                1 => D::Num,
+                2 => D::Bool,
+                3 => D::StrLit("a".into()),
+                _ => D::obj(vec![("a", D::Str, false)]),
+            };
+            let n = s.range(0, 2);
+            let prefix: Vec<D> = (0..n).map(|_| leaf(s)).collect();
+            x = D::Tuple(prefix, Some(Box::new(leaf(s))));
+            indexed_tuple = Some(s.below(n + 2));
+        }
         // keyof over an intersection the frontend cannot merge syntactically (a key declared with different types, a named
         // member), alone or next to another object type in a union
         let mut keyof_targeted = false;
@@ -1574,6 +1598,7 @@ impl Check for C07 {
         }
         let y = match (op.as_str(), &x) {
             ("indexed", _) if indexed_key.is_some() => D::StrLit(indexed_key.clone().unwrap()),
+            ("indexed", _) if indexed_tuple.is_some() => D::NumLit(indexed_tuple.unwrap().to_string()),
             ("diff", D::Union(ms)) if s.chance(2, 3) => {
                 // remove one or two whole members
                 let i = s.below(ms.len());
@@ -1788,7 +1813,7 @@ impl C07 {
         let expr = match expr_kind {
             "exclude" => "Exclude<X, Y>".to_string(),
             "keyof" => "keyof X".to_string(),
-            _ => format!("X[{}]", match &case.y { D::StrLit(k) => crate::render::ts_string(k), _ => unreachable!() }),
+            _ => format!("X[{}]", match &case.y { D::StrLit(k) => crate::render::ts_string(k), D::NumLit(n) => n.clone(), _ => unreachable!() }),
         };
         // two more semantic computations in the same compilation (each re-materialises a named operand, with its own
         // recursive helpers when the operand is recursive): Exclude<T, never> is T itself
